@@ -66,6 +66,9 @@ pub const MUST_REJECT_ATTRS: &[(&str, &str)] = &[
     ("#[regex(\"a[^\\\\n]*\")]", "unbounded greedy dot without allow_greedy"),
     ("#[regex(\"a(?s:.)*b\")]", "unbounded greedy dot without allow_greedy"),
     ("#[regex(\"a.{2,}\")]", "unbounded greedy dot without allow_greedy"),
+    ("#[regex(\"a(.)+\")]", "unbounded greedy dot (inside a capture group) without allow_greedy"),
+    ("#[regex(\"a(?P<x>.)*b\")]", "unbounded greedy dot (inside a capture group) without allow_greedy"),
+    ("#[regex(\"q((.))+\")]", "unbounded greedy dot (inside a capture group) without allow_greedy"),
     ("#[regex(\"(?:a.*)+\")]", "unbounded greedy dot (inside a repetition) without allow_greedy"),
     ("#[regex(\"x(?:.+y){2}\")]", "unbounded greedy dot (inside a repetition) without allow_greedy"),
     ("#[regex(\"(?:b[^\\n]*c)?d\")]", "unbounded greedy dot (inside a repetition) without allow_greedy"),
